@@ -126,12 +126,12 @@ def header_gen(tier):
 
 # ------------------------------------------------------------------------------------------------
 # (b) nesting
-def blocks(depth, in_loop, loopvar, full_pairs):
+def blocks(depth, in_loop, loopvar, full_pairs, same=False):
     """All blocks of the grammar at this depth: [S], [S, P], [P, S] (and all pairs [S, S'] of leaves when full_pairs)."""
     P = ("print", None)
     out = []
     seen = set()
-    sts = list(stmts(depth, in_loop, loopvar, full_pairs))
+    sts = list(stmts(depth, in_loop, loopvar, full_pairs, same))
     for s in sts:
         for b in (s, s + [P], [P] + s):
             key = repr(b)
@@ -152,9 +152,9 @@ def blocks(depth, in_loop, loopvar, full_pairs):
 _memo = {}
 
 
-def stmts(depth, in_loop, loopvar, full_pairs):
+def stmts(depth, in_loop, loopvar, full_pairs, same=False):
     """Statement groups (lists, because `while` needs its counter reset in front)."""
-    key = (depth, in_loop, loopvar, full_pairs)
+    key = (depth, in_loop, loopvar, full_pairs, same)
     if key in _memo:
         return _memo[key]
     res = []
@@ -168,18 +168,24 @@ def stmts(depth, in_loop, loopvar, full_pairs):
         res.append([("let", loopvar, ("bin", "+", ("var", loopvar), ("int", 1)))])
     if depth > 0:
         d = depth
-        iv, nv, ev, tv = "i%d" % d, "n%d" % d, "e%d" % d, "t%d" % d
-        for b in blocks(depth - 1, in_loop, loopvar, full_pairs):
+        iv, nv, ev, tv = "i%d" % d, "n%d" % d, "e%d" % d, ("t1" if same else "t%d" % d)
+        for b in blocks(depth - 1, in_loop, loopvar, full_pairs, same):
             res.append([("if", ("var", "vt"), b, None)])
             res.append([("if", ("var", "vf"), [("print", None)], b)])
             res.append([("begin", b, [("ea", [("print", None)])])])
             res.append([("begin", b, [("others", [("print", None)])])])
-        for b in blocks(depth - 1, True, iv, full_pairs):
-            res.append([("for", iv, ("int", 1), ("int", 2), None, "auto", b)])
-        for b in blocks(depth - 1, True, None, full_pairs):
-            res.append([("let", nv, ("int", 0)),
-                        ("while", ("bin", "<", ("var", nv), ("int", 2)), [("let", nv, ("bin", "+", ("var", nv), ("int", 1)))] + b)])
+        if not same:
+            for b in blocks(depth - 1, True, iv, full_pairs, same):
+                res.append([("for", iv, ("int", 1), ("int", 2), None, "auto", b)])
+            for b in blocks(depth - 1, True, None, full_pairs, same):
+                res.append([("let", nv, ("int", 0)),
+                            ("while", ("bin", "<", ("var", nv), ("int", 2)), [("let", nv, ("bin", "+", ("var", nv), ("int", 1)))] + b)])
+        # forall: the body may write through the iterator (it lands in the table)
+        # (not when an enclosing forall traverses the same table: it is locked, and the inner iterator inherits the lock)
+        for b in blocks(depth - 1, True, None if same else ev, full_pairs, same):
             res.append([("forall", ev, tv, "auto", b)])
+            if same:
+                res.append([("forall", ev, tv, "desc", b)])
     _memo[key] = res
     return res
 
@@ -216,6 +222,10 @@ def nest_programs(tier):
     full = tier == "thorough"
     for b in blocks(depth, False, None, False if depth == 3 else full):
         yield relabel(b + [("print", None)])
+    # forall nested over the SAME table (the inner loop traverses the table the outer loop is traversing)
+    for b in blocks(2 if tier != "thorough" else 3, False, None, False, True):
+        if repr(b).count("'forall'") >= 2:
+            yield relabel(b + [("print", None)])
 
 
 def nest_gen(tier):
@@ -355,6 +365,15 @@ def check(case, res):
             vs.append(Violation("nest:trace:%s" % m["where"], "printed %r, expected %r" % (out, want), case))
         if m["where"] == "top" and run.get("r") in ("ok", "rerr"):
             dv = dump.get("vars", {})
+            from ..dumpparse import parse_symbol
+            for name in ("t1", "t2", "t3"):
+                try:
+                    got = [x[1] if x[0] == "i" else None for x in parse_symbol(dv[name.upper()])[2][2]]
+                except Exception:
+                    got = dv.get(name.upper())
+                if got != env.get(name):
+                    vs.append(Violation("nest:final-table", "table %s is %r after the program, expected %r" % (name, got, env.get(name)), case))
+                    break
             for name in ("i1", "i2", "i3", "n1", "n2", "n3", "e1", "e2", "e3"):
                 got = intval(dv, name.upper())
                 exp = env.get(name)
